@@ -172,6 +172,8 @@ def ev(n, env, funcs=None):
             if hasattr(v, n.attr):
                 return getattr(v, n.attr)
             raise Unsupported('abstract object has no attribute %s' % n.attr)
+        if n.attr == '__name__' and callable(v) and hasattr(v, '__name__'):
+            return v.__name__
         raise Unsupported('attribute %s' % txt)
     if isinstance(n, ast.Subscript):
         base = ev(n.value, env, funcs)
@@ -344,8 +346,24 @@ def ev(n, env, funcs=None):
         for op, c in zip(n.ops, n.comparators):
             r = ev(c, env, funcs)
             t = type(op)
-            if isinstance(l, Obj) or isinstance(r, Obj):
-                ok = ok and _obj_compare(t, l, r)
+            if (isinstance(l, Obj) or isinstance(r, Obj)) and t in (ast.Is, ast.IsNot):
+                ok = ok and ((l is r) == (t is ast.Is))
+                l = r
+                continue
+            if isinstance(l, Obj) and t in (ast.In, ast.NotIn) and isinstance(r, (list, tuple, set)):
+                inside = any(x is l or (isinstance(x, Obj) and '__eq__' in l.methods and l.call('__eq__', x)) for x in r)
+                ok = ok and (inside == (t is ast.In))
+                l = r
+                continue
+            if (isinstance(l, Obj) or isinstance(r, Obj)) and t not in (ast.In, ast.NotIn):
+                if not isinstance(l, Obj) and t in (ast.Eq, ast.NotEq):
+                    # None == record, 3 == record: Python falls back to the reflected method, then to identity
+                    res = r.call('__eq__', l) if '__eq__' in r.methods else (l is r)
+                    ok = ok and (bool(res) == (t is ast.Eq))
+                elif isinstance(l, Obj) and t in (ast.Eq, ast.NotEq) and '__eq__' not in l.methods:
+                    ok = ok and ((l is r) == (t is ast.Eq))
+                else:
+                    ok = ok and _obj_compare(t, l, r)
                 l = r
                 continue
             if t is ast.Lt:
@@ -652,4 +670,5 @@ def make_func(fn, funcs=None, self_obj=None):
             body = body[1:]
         kind, val = run_block(body, env, funcs)
         return val if kind == 'return' else None
+    call.__name__ = getattr(fn, 'name', 'function')
     return call
